@@ -515,8 +515,15 @@ class _ArraySizeInferInstance(DefaultVisitor):
 
     def _visit_list_comp(self, e: ListComp, ctx: None):
         iter_tys: list[ListSize] = []
-        for target, iterable in zip(e.targets, e.iterables, strict=True):
-            ty = self._visit_expr(iterable, ctx)
+        for i, (target, iterable) in enumerate(zip(e.targets, e.iterables, strict=True)):
+            # Only the first iterable is always evaluated: a later one runs
+            # once per item of those before it, so not at all over an empty
+            # one -- conditional for the same reason a branch body is.
+            if i == 0:
+                ty = self._visit_expr(iterable, ctx)
+            else:
+                with self._branch():
+                    ty = self._visit_expr(iterable, ctx)
             assert isinstance(ty, ListSize)
             self._visit_binding(e, target, ty.elt)
             iter_tys.append(ty)
